@@ -301,3 +301,440 @@ theorem ofMs_msOf_whole (t : Int) (h : t % 1000000 = 0) : ofMs (msOf t) = t := b
   simp only [ofMs, msOf]; omega
 
 end Varpulis.Ckpt
+
+/-! ## part 2 (C19): `restore ∘ checkpoint` per component -/
+namespace Varpulis.Ckpt
+
+theorem joinTs_split (t : Int) : joinTs (msOf t) (subOf t) = t := by
+  simp only [joinTs, subOf]; exact ofMs_msOf_add t
+
+theorem optTs_rt (o : Option Int) :
+    (o.map msOf).map (fun ms => joinTs ms ((o.map subOf).getD 0)) = o := by
+  cases o <;> simp [joinTs_split]
+
+theorem eventOfSer_serOfEvent (e : Event) : eventOfSer (serOfEvent e) = e := by
+  obtain ⟨ty, t, d⟩ := e
+  simp only [eventOfSer, serOfEvent, s2vM_v2sM, ofMs_msOf_add]
+
+theorem event_comp : eventOfSer ∘ serOfEvent = id := by
+  funext e; simp [eventOfSer_serOfEvent]
+
+theorem map_event_rt (l : List Event) : List.map (eventOfSer ∘ serOfEvent) l = l := by
+  simp [event_comp]
+
+theorem optTs_rt' (o : Option Int) :
+    Option.map ((fun ms => joinTs ms ((Option.map subOf o).getD 0)) ∘ msOf) o = o := by
+  cases o <;> simp [joinTs_split]
+
+theorem tumbling_rt (w : TumblingSt) : TumblingSt.restore w.ckpt = w := by
+  obtain ⟨b, s⟩ := w
+  simp [TumblingSt.restore, TumblingSt.ckpt, emptyWC, map_event_rt, optTs_rt']
+
+theorem sliding_rt (w : SlidingSt) : SlidingSt.restore w.ckpt = w := by
+  obtain ⟨b, s⟩ := w
+  simp [SlidingSt.restore, SlidingSt.ckpt, emptyWC, map_event_rt, optTs_rt']
+
+theorem count_rt (w : CountSt) : CountSt.restore w.ckpt = w := by
+  obtain ⟨b⟩ := w
+  simp [CountSt.restore, CountSt.ckpt, emptyWC, map_event_rt]
+
+theorem slidingCount_rt (w : SlidingCountSt) : SlidingCountSt.restore w.ckpt = w := by
+  obtain ⟨b, s⟩ := w
+  simp [SlidingCountSt.restore, SlidingCountSt.ckpt, emptyWC, map_event_rt]
+
+theorem session_rt (w : SessionSt) : SessionSt.restore w.ckpt = w := by
+  obtain ⟨b, s⟩ := w
+  simp [SessionSt.restore, SessionSt.ckpt, emptyWC, map_event_rt, optTs_rt']
+
+theorem part_rt {σ} (ck : σ → WindowCkpt) (rs : WindowCkpt → σ) (h : ∀ w, rs (wcOf (pwcOf (ck w))) = w)
+    (ws : List (String × σ)) : partRestore rs (partCkpt ck ws) = ws := by
+  simp only [partRestore, partCkpt, emptyWC, List.map_map]
+  induction ws with
+  | nil => rfl
+  | cons a t ih => obtain ⟨k, w⟩ := a; simp [h w] at ih ⊢; exact ih
+
+theorem tumbling_prt (w : TumblingSt) : TumblingSt.restore (wcOf (pwcOf w.ckpt)) = w := by
+  obtain ⟨b, s⟩ := w
+  simp [TumblingSt.restore, TumblingSt.ckpt, wcOf, pwcOf, emptyWC, map_event_rt, optTs_rt']
+
+theorem session_prt (w : SessionSt) : SessionSt.restore (wcOf (pwcOf w.ckpt)) = w := by
+  obtain ⟨b, s⟩ := w
+  simp [SessionSt.restore, SessionSt.ckpt, wcOf, pwcOf, emptyWC, map_event_rt, optTs_rt']
+
+theorem count_prt (w : CountSt) : CountSt.restore (wcOf (pwcOf w.ckpt)) = w := by
+  obtain ⟨b⟩ := w
+  simp [CountSt.restore, CountSt.ckpt, wcOf, pwcOf, emptyWC, map_event_rt]
+
+theorem slidingCount_prt (w : SlidingCountSt) : SlidingCountSt.restore (wcOf (pwcOf w.ckpt)) = w := by
+  obtain ⟨b, s⟩ := w
+  simp [SlidingCountSt.restore, SlidingCountSt.ckpt, wcOf, pwcOf, emptyWC, map_event_rt]
+
+theorem sliding_prt (w : SlidingSt) : slidingOfPwc (slidingPwc w) = w := by
+  obtain ⟨b, s⟩ := w
+  simp [slidingOfPwc, slidingPwc, emptyPWC, map_event_rt, optTs_rt']
+
+theorem winSt_rt (w : WinSt) : (WinSt.fresh w).restore w.ckpt = w := by
+  cases w with
+  | tumbling w => simp [WinSt.fresh, WinSt.restore, WinSt.ckpt, tumbling_rt]
+  | sliding w => simp [WinSt.fresh, WinSt.restore, WinSt.ckpt, sliding_rt]
+  | count w => simp [WinSt.fresh, WinSt.restore, WinSt.ckpt, count_rt]
+  | slidingCount w => simp [WinSt.fresh, WinSt.restore, WinSt.ckpt, slidingCount_rt]
+  | session w => simp [WinSt.fresh, WinSt.restore, WinSt.ckpt, session_rt]
+  | pTumbling ws => simp [WinSt.fresh, WinSt.restore, WinSt.ckpt, part_rt _ _ tumbling_prt]
+  | pSliding ws =>
+    simp only [WinSt.fresh, WinSt.restore, WinSt.ckpt, emptyWC, List.map_map]
+    congr 1
+    induction ws with
+    | nil => rfl
+    | cons a t ih => obtain ⟨k, w⟩ := a; simp [sliding_prt] at ih ⊢; exact ih
+  | pSession ws => simp [WinSt.fresh, WinSt.restore, WinSt.ckpt, part_rt _ _ session_prt]
+  | pCount ws => simp [WinSt.fresh, WinSt.restore, WinSt.ckpt, part_rt _ _ count_prt]
+  | pSlidingCount ws => simp [WinSt.fresh, WinSt.restore, WinSt.ckpt, part_rt _ _ slidingCount_prt]
+
+/-! ### SASE -/
+theorem val_comp : s2v ∘ v2s = id := by funext v; simp [s2v_v2s]
+
+theorem run_rt (r : Run) :
+    Run.fromCkpt r.ckpt = { r with pendingNegs := [], kleene := r.kleene.map fun kc =>
+      { events := kc.events, aliases := kc.events.map fun _ => none, deferred := none } } := by
+  obtain ⟨cs, st, ca, sa, dl, pk, iv, pn, an, kl⟩ := r
+  simp only [Run.fromCkpt, Run.ckpt, List.map_map, Option.map_map]
+  congr 1
+  · induction st with
+    | nil => rfl
+    | cons a t ih => simp [eventOfSer_serOfEvent] at ih ⊢; exact ih
+  · induction ca with
+    | nil => rfl
+    | cons a t ih => simp [eventOfSer_serOfEvent] at ih ⊢; exact ih
+  · exact optTs_rt' sa
+  · exact optTs_rt' dl
+  · simp [val_comp]
+  · cases an with
+    | none => rfl
+    | some l =>
+      simp only [Option.map_some, Function.comp, List.map_map]
+      congr 1
+      induction l with
+      | nil => rfl
+      | cons a t ih => simp [eventOfSer_serOfEvent] at ih ⊢; exact ih
+  · cases kl with
+    | none => rfl
+    | some kc => simp [Function.comp, List.map_map, map_event_rt]
+
+theorem run_view_rt (r : Run) (h : r.Restorable = true) : (Run.fromCkpt r.ckpt).view = r.view := by
+  rw [run_rt]
+  obtain ⟨cs, st, ca, sa, dl, pk, iv, pn, an, kl⟩ := r
+  simp only [Run.Restorable, Bool.and_eq_true, List.isEmpty_iff] at h
+  obtain ⟨h1, h2⟩ := h
+  subst h1
+  simp only [Run.view]
+  congr 1
+  cases kl with
+  | none => rfl
+  | some kc =>
+    obtain ⟨ev, al, df⟩ := kc
+    simp only [Option.isNone_iff_eq_none] at h2
+    subst h2
+    simp [KC.view]
+
+theorem runs_view_rt (l : List Run) (h : l.all Run.Restorable = true) :
+    l.map (Run.view ∘ Run.fromCkpt ∘ Run.ckpt) = l.map Run.view := by
+  induction l with
+  | nil => rfl
+  | cons a t ih =>
+    simp only [List.all_cons, Bool.and_eq_true] at h
+    simp only [List.map_cons, Function.comp, run_view_rt a h.1, List.cons.injEq, true_and]
+    exact ih h.2
+
+theorem sase_view_rt (s : SaseSt) (h : s.Restorable = true) : (SaseSt.restore s.ckpt).view = s.view := by
+  obtain ⟨rs, ps, wm, mt, a, b, c, d⟩ := s
+  simp only [SaseSt.Restorable, Bool.and_eq_true] at h
+  simp only [SaseSt.view, SaseSt.restore, SaseSt.ckpt, List.map_map, Option.map_map, optTs_rt']
+  congr 1
+  · exact runs_view_rt rs h.1
+  · have h2 := h.2
+    clear h
+    induction ps with
+    | nil => rfl
+    | cons x t ih =>
+      obtain ⟨k, l⟩ := x
+      simp only [List.all_cons, Bool.and_eq_true] at h2
+      simp only [List.map_cons, Function.comp, List.cons.injEq, Prod.mk.injEq, true_and]
+      refine ⟨?_, ih h2.2⟩
+      have := runs_view_rt l h2.1
+      simpa [List.map_map, Function.comp] using this
+
+/-! ### join -/
+theorem heapPush_sorted (a : Expiry) (l : List Expiry) (h : HeapSorted (a :: l)) : heapPush a l = a :: l := by
+  cases l with
+  | nil => rfl
+  | cons b r => simp [heapPush, h.1]
+
+theorem heapOfList_sorted (l : List Expiry) (h : HeapSorted l) : heapOfList l = l := by
+  induction l with
+  | nil => rfl
+  | cons a t ih =>
+    have ht : HeapSorted t := by
+      cases t with
+      | nil => trivial
+      | cons b r => exact h.2
+    simp only [heapOfList, List.foldr_cons] at ih ⊢
+    rw [ih ht]
+    exact heapPush_sorted a t h
+
+theorem map_eq_self {α} (f : α → α) (l : List α) (h : ∀ x ∈ l, f x = x) : l.map f = l := by
+  induction l with
+  | nil => rfl
+  | cons a t ih =>
+    simp only [List.map_cons, List.cons.injEq]
+    exact ⟨h a List.mem_cons_self, ih fun x hx => h x (List.mem_cons_of_mem _ hx)⟩
+
+theorem join_rt (c : JoinCfg) (w : Int) (j : JoinSt) (h : j.WF) : JoinSt.restore w (j.ckpt c) = j := by
+  obtain ⟨bufs, q, gc⟩ := j
+  obtain ⟨hb, hq⟩ := h
+  simp only at hb hq
+  simp only [JoinSt.restore, JoinSt.ckpt, List.map_map, Option.map_map, optTs_rt']
+  congr 1
+  · apply map_eq_self
+    intro sb hsb
+    obtain ⟨s, kbs⟩ := sb
+    simp only [Function.comp, List.map_map, Prod.mk.injEq, true_and]
+    apply map_eq_self
+    intro kb hkb
+    obtain ⟨k, ps⟩ := kb
+    simp only [Function.comp, Prod.mk.injEq, true_and, List.map_map]
+    apply map_eq_self
+    intro p hp
+    obtain ⟨ts, e⟩ := p
+    have := hb (s, kbs) hsb (k, ps) hkb (ts, e) hp
+    simp only at this
+    simp [eventOfSer_serOfEvent, this]
+  · have : q.map ((fun x : QEntry => ({ t := joinTs x.ms x.sub, source := x.source, key := x.key } : Expiry)) ∘
+        fun x : Expiry => ({ ms := msOf x.t, sub := subOf x.t, source := x.source, key := x.key } : QEntry)) = q := by
+      apply map_eq_self
+      intro x _
+      simp [joinTs_split]
+    rw [this]
+    exact heapOfList_sorted q hq
+
+/-! ### distinct -/
+theorem foldl_lruInsert (l acc : List String) (h : (acc ++ l).Nodup) : l.foldl lruInsert acc = acc ++ l := by
+  induction l generalizing acc with
+  | nil => simp
+  | cons k t ih =>
+    have hk : k ∉ acc := by
+      intro hm
+      have := List.nodup_append.mp h
+      exact this.2.2 k hm k List.mem_cons_self rfl
+    simp only [List.foldl_cons, lruInsert, List.erase_of_not_mem hk]
+    rw [ih (acc ++ [k]) (by simpa using h)]
+    simp
+
+theorem distinct_rt (seen : List String) (h : seen.Nodup) : distinctRestore (distinctCkpt seen) = seen := by
+  simp only [distinctRestore, distinctCkpt, List.reverse_reverse]
+  simpa using foldl_lruInsert seen [] (by simpa using h)
+
+
+/-! ### association lists -/
+theorem lookup_map_snd {α β} (f : α → β) (l : List (String × α)) (k : String) :
+    (l.map fun kv => (kv.1, f kv.2)).lookup k = (l.lookup k).map f := by
+  induction l with
+  | nil => rfl
+  | cons a t ih =>
+    obtain ⟨k', v⟩ := a
+    simp only [List.map_cons, List.lookup_cons]
+    cases h : k == k' <;> simp [ih]
+
+theorem lookup_upsert {α} (k k' : String) (v : α) (l : List (String × α)) :
+    (upsert k v l).lookup k' = if k' = k then some v else l.lookup k' := by
+  induction l with
+  | nil =>
+    by_cases h : k' = k
+    · simp [upsert, List.lookup, h]
+    · have : (k' == k) = false := by simp [h]
+      simp [upsert, List.lookup, h, this]
+  | cons a t ih =>
+    obtain ⟨k2, v2⟩ := a
+    simp only [upsert]
+    by_cases h2 : k2 = k
+    · subst h2
+      by_cases h : k' = k2
+      · simp [List.lookup_cons, h]
+      · have : (k' == k2) = false := by simp [h]
+        simp [List.lookup_cons, h, this]
+    · by_cases h : k' = k
+      · subst h
+        have : (k' == k2) = false := by simp; exact fun h' => h2 h'.symm
+        simp [h2, List.lookup_cons, this, ih]
+      · simp only [h2, if_false, List.lookup_cons, ih, h]
+
+theorem lookup_none_of_not_mem {α} (l : List (String × α)) (k : String) (h : k ∉ l.map (·.1)) : l.lookup k = none := by
+  induction l with
+  | nil => rfl
+  | cons a t ih =>
+    obtain ⟨k', v⟩ := a
+    simp only [List.map_cons, List.mem_cons, not_or] at h
+    have : (k == k') = false := by simp [h.1]
+    simp [List.lookup_cons, this, ih h.2]
+
+theorem lookup_foldl_upsert {α β} (g : β → α) (l : List (String × β)) (acc : List (String × α)) (k : String)
+    (h : (l.map (·.1)).Nodup) :
+    (l.foldl (fun acc kv => upsert kv.1 (g kv.2) acc) acc).lookup k =
+      match l.lookup k with
+      | some b => some (g b)
+      | none => acc.lookup k := by
+  induction l generalizing acc with
+  | nil => rfl
+  | cons a t ih =>
+    obtain ⟨k', v⟩ := a
+    simp only [List.map_cons, List.nodup_cons] at h
+    simp only [List.foldl_cons, List.lookup_cons]
+    rw [ih _ h.2]
+    by_cases hk : k = k'
+    · subst hk
+      simp [lookup_none_of_not_mem t k h.1, lookup_upsert]
+    · have : (k == k') = false := by simp [hk]
+      simp only [this]
+      cases t.lookup k <;> simp [lookup_upsert, hk]
+
+theorem lookup_filterMap {α β} (f : String → α → Option β) (l : List (String × α)) (k : String) (v : α)
+    (hn : (l.map (·.1)).Nodup) (hm : (k, v) ∈ l) :
+    (l.filterMap fun kv => (f kv.1 kv.2).map fun b => (kv.1, b)).lookup k = f k v := by
+  induction l with
+  | nil => cases hm
+  | cons a t ih =>
+    obtain ⟨k', v'⟩ := a
+    simp only [List.map_cons, List.nodup_cons] at hn
+    simp only [List.mem_cons, Prod.mk.injEq] at hm
+    rcases hm with ⟨hk, hv⟩ | hm
+    · subst hk; subst hv
+      simp only [List.filterMap_cons]
+      cases hf : f k v with
+      | none =>
+        simp only [Option.map_none]
+        apply lookup_none_of_not_mem
+        intro hmem
+        simp only [List.map_filterMap, List.mem_filterMap] at hmem
+        obtain ⟨x, hx, hx2⟩ := hmem
+        cases hfx : f x.1 x.2 <;> simp [hfx] at hx2
+        subst hx2
+        exact hn.1 (List.mem_map_of_mem (f := (·.1)) hx)
+      | some b => simp
+    · have hne : (k == k') = false := by
+        simp; intro h; subst h
+        exact hn.1 (List.mem_map_of_mem (f := (·.1)) hm)
+      simp only [List.filterMap_cons]
+      cases f k' v' with
+      | none => simpa using ih hn.2 hm
+      | some b => simp [List.lookup_cons, hne, ih hn.2 hm]
+
+/-! ### watermarks, variables -/
+theorem srcWm_rt (s : SrcWm) : SrcWm.ofCkpt s.ckpt = s := by
+  obtain ⟨w, m, o⟩ := s
+  simp [SrcWm.ofCkpt, SrcWm.ckpt, optTs_rt']
+
+theorem wm_rt (w : WmSt) (src0 : List (String × SrcWm)) (hn : (w.sources.map (·.1)).Nodup)
+    (h0 : ∀ k, w.sources.lookup k = none → src0.lookup k = none)
+    (hi : w.lastApplied = none → w.effective = none) :
+    (∀ k, (WmSt.restore src0 w.ckpt).sources.lookup k = w.sources.lookup k)
+      ∧ (WmSt.restore src0 w.ckpt).effective = w.effective
+      ∧ (WmSt.restore src0 w.ckpt).lastApplied = w.lastApplied := by
+  obtain ⟨srcs, eff, la⟩ := w
+  refine ⟨?_, ?_, ?_⟩
+  · intro k
+    simp only [WmSt.restore, WmSt.ckpt] at hn h0 ⊢
+    rw [lookup_foldl_upsert SrcWm.ofCkpt _ _ _ (by simpa [List.map_map, Function.comp_def] using hn)]
+    rw [lookup_map_snd]
+    cases hl : srcs.lookup k with
+    | none => simp [h0 k hl]
+    | some s => simp [srcWm_rt]
+  · simp [WmSt.restore, WmSt.ckpt, optTs_rt']
+  · cases la with
+    | none =>
+      have := hi rfl
+      simp only at this
+      subst this
+      simp [WmSt.restore, WmSt.ckpt]
+    | some t => simp [WmSt.restore, WmSt.ckpt, joinTs_split]
+
+theorem vars_rt (vars vars0 : List (String × Val)) (hn : (vars.map (·.1)).Nodup)
+    (h0 : ∀ k, vars.lookup k = none → vars0.lookup k = none) (k : String) :
+    ((vars.map fun kv => (kv.1, v2s kv.2)).foldl (fun acc kv => upsert kv.1 (s2v kv.2) acc) vars0).lookup k
+      = vars.lookup k := by
+  rw [lookup_foldl_upsert s2v _ _ _ (by simpa [List.map_map, Function.comp_def] using hn), lookup_map_snd]
+  cases hl : vars.lookup k with
+  | none => simp [h0 k hl]
+  | some v => simp [s2v_v2s]
+
+
+/-! ### the engine -/
+theorem map_congr_mem {α β} (f g : α → β) (l : List α) (h : ∀ x ∈ l, f x = g x) : l.map f = l.map g := by
+  induction l with
+  | nil => rfl
+  | cons a t ih =>
+    simp only [List.map_cons, List.cons.injEq]
+    exact ⟨h a List.mem_cons_self, ih fun x hx => h x (List.mem_cons_of_mem _ hx)⟩
+
+theorem stream_rt (cfg : String → StreamCfg) (s : EngineSt) (vars0 : List (String × Val))
+    (src0 : List (String × SrcWm)) (h : s.Restorable vars0 src0) (k : String) (st : StreamSt)
+    (hm : (k, st) ∈ s.streams) :
+    (StreamSt.restore (cfg k) (s.ckpt cfg) k st.fresh).view = st.view := by
+  have hw : (s.ckpt cfg).windowStates.lookup k = st.win.map WinSt.ckpt := by
+    simpa [EngineSt.ckpt, Option.map_map, Function.comp_def] using
+      lookup_filterMap (fun _ (x : StreamSt) => x.win.map WinSt.ckpt) s.streams k st h.names hm
+  have hs : (s.ckpt cfg).saseStates.lookup k = st.sase.map SaseSt.ckpt := by
+    simpa [EngineSt.ckpt, Option.map_map, Function.comp_def] using
+      lookup_filterMap (fun _ (x : StreamSt) => x.sase.map SaseSt.ckpt) s.streams k st h.names hm
+  have hd : (s.ckpt cfg).distinctStates.lookup k = st.distinct.map distinctCkpt := by
+    simpa [EngineSt.ckpt, Option.map_map, Function.comp_def] using
+      lookup_filterMap (fun _ (x : StreamSt) => x.distinct.map distinctCkpt) s.streams k st h.names hm
+  have hl : (s.ckpt cfg).limitStates.lookup k = st.limit := by
+    simpa [EngineSt.ckpt, Option.map_map, Function.comp_def] using
+      lookup_filterMap (fun _ (x : StreamSt) => x.limit) s.streams k st h.names hm
+  have hj : (s.ckpt cfg).joinStates.lookup k = st.join.map fun j => j.ckpt (cfg k).join := by
+    simpa [EngineSt.ckpt, Option.map_map, Function.comp_def] using
+      lookup_filterMap (fun n (x : StreamSt) => x.join.map fun j => j.ckpt (cfg n).join) s.streams k st h.names hm
+  obtain ⟨win, sase, join, dist, lim⟩ := st
+  simp only [StreamSt.restore, StreamSt.fresh, StreamSt.view, hw, hs, hd, hl, hj]
+  congr 1
+  · cases win with
+    | none => rfl
+    | some w => simp [winSt_rt]
+  · cases sase with
+    | none => rfl
+    | some x =>
+      simp only [Option.map_some]
+      exact congrArg some (sase_view_rt x (h.sase _ hm x rfl))
+  · cases join with
+    | none => rfl
+    | some j => simp [join_rt _ _ j (h.join _ hm j rfl)]
+  · cases dist with
+    | none => rfl
+    | some d => simp [distinct_rt d (h.distinct _ hm d rfl)]
+  · cases lim with
+    | none => rfl
+    | some l => simp
+
+theorem engine_rt (cfg : String → StreamCfg) (s : EngineSt) (vars0 : List (String × Val))
+    (src0 : List (String × SrcWm)) (h : s.Restorable vars0 src0) :
+    EngineSt.Equiv (EngineSt.restore cfg (s.fresh vars0 src0) (s.ckpt cfg)) s := by
+  constructor
+  · simp only [EngineSt.restore, EngineSt.fresh, List.map_map]
+    apply map_congr_mem
+    intro kv hkv
+    obtain ⟨k, st⟩ := kv
+    simp only [Function.comp, Prod.mk.injEq, true_and]
+    exact stream_rt cfg s vars0 src0 h k st hkv
+  · intro k
+    simp only [EngineSt.restore, EngineSt.fresh, EngineSt.ckpt]
+    exact vars_rt s.variables vars0 h.varNames h.vars0 k
+  · rfl
+  · rfl
+  · cases hw : s.wm with
+    | none => simp [EngineSt.restore, EngineSt.fresh, EngineSt.ckpt, hw]
+    | some w =>
+      simp only [EngineSt.restore, EngineSt.fresh, EngineSt.ckpt, hw, Option.map_some, Option.getD_some]
+      exact wm_rt w src0 (h.srcNames w hw) (h.src0 w hw) (h.applied w hw)
+
+
+end Varpulis.Ckpt
